@@ -200,6 +200,7 @@ pub fn bounded_sink_cases(rep: &Report, tag: &str) {
 pub fn run(rep: &Report) {
     let seed = rep.seed;
     rep.set_rule("E-ENV fault enumeration: for every call index k of every explored run, each fault of the menu (read: Interrupted, Other; write: Ok(0), Interrupted, Other; flush: Interrupted, Other) is injected at k (fault budget 1) on top of short-read/short-write schedules within the stated budget; every execution is checked against the oracle, failing ones are re-run with the fault replaced by the default answer (prefix clause). distinct non-trivial = distinct (subject, input, tape) executions that contain at least one non-default answer");
+    rep.rule_add("CLI: 16 authentic / cut inputs (full and many short chunks, both modes) x 4 sinks (-o fresh, -o over a longer file, stdout pipe, stdout into a file): identical bytes and status.");
     rep.rule_add("Bounded sinks (&mut [u8], Cursor): 27 capacities around the record boundaries x 4 operations: Ok exactly when everything fitted, else an error and a prefix.");
     rep.rule_add("CLI faults (missing directory, /dev/full, closed pipe, RLIMIT_FSIZE, directory as input) and CLI partial reads (stdin in pieces at a boundary set of offsets; byte by byte).");
     rep.assume("fault budget 1 per execution (2 on the smallest scopes in the thorough tier: an interruption followed by another fault); after a hard fault the operation has returned; Interrupted is never injected twice in a row at one position");
@@ -403,10 +404,90 @@ pub fn run(rep: &Report) {
     cli_level(rep);
     cli_partial_reads(rep);
     bounded_sink_cases(rep, "C10");
+    cli_same_result(rep);
     rep.set_exhaustive(true);
 }
 
 /// Real I/O failures through the CLI's OnDemandFile / stdout / File input.
+/// "The same result over any conforming sink", at the program level: authentic files with ordinary and with many short
+/// chunks, and the same files cut inside a later chunk, are decrypted to a fresh -o file, to an -o path that holds a longer
+/// file, to a stdout pipe and to a stdout redirected into a file: all four receive the same bytes -- the plaintext, or
+/// exactly the authenticated prefix with exit status 1.
+fn cli_same_result(rep: &Report) {
+    let seed = rep.seed;
+    let (alice, bob) = party_fixtures(seed);
+    let kr = crate::fx::keyring(&[(&alice, true), (&bob, true)]);
+    const CSZ: usize = 65536;
+    let p = plaintext(seed ^ 0x15, 2 * CSZ + 4321);
+    let salt = derive32(seed, "c10-same-salt");
+    let pkey = r::pass_key(b"pw", &salt);
+    let short: Vec<usize> = {
+        let mut v = vec![1000usize; 60];
+        v.push(CSZ);
+        v.push(p.len() - 60_000 - CSZ);
+        v
+    };
+    let chunkings: Vec<(&str, Vec<usize>)> = vec![("full chunks", vec![CSZ, CSZ, 4321]), ("60 chunks of 1000 bytes, then longer ones", short)];
+    let mut jobs = vec![];
+    for (ci, (_, ch)) in chunkings.iter().enumerate() {
+        for mode in ["key", "pass"] {
+            let file = if mode == "key" { r::write_key_file(&alice.sk, &bob.pk, &derive32(seed, "c10-same-e"), &derive32(seed, "c10-same-p"), &p, ch).unwrap() } else { r::write_pass_file_with_key(&pkey, &salt, &p, ch) };
+            let hdr = if mode == "key" { 132 } else { 36 };
+            // cuts: none; inside the 3rd record; at the boundary after the 2nd record; inside the last record
+            let rec_end = |k: usize| hdr + ch[..k].iter().map(|c| c + 32).sum::<usize>();
+            let cuts: Vec<(String, usize, usize)> = vec![("whole".into(), file.len(), p.len()), ("cut inside record 3".into(), rec_end(2) + 40, ch[..2].iter().sum()), ("cut after record 2".into(), rec_end(2), ch[..2].iter().sum()), ("cut inside the last record".into(), file.len() - 7, ch[..ch.len() - 1].iter().sum())];
+            for (cn, at, released) in cuts {
+                jobs.push((ci, mode, file[..at].to_vec(), cn, released));
+            }
+        }
+    }
+    jobs.par_iter().for_each(|(ci, mode, input, cn, released)| {
+        rep.eval(4);
+        rep.nontrivial(format!("cli-same-result-{}-{}-{}", ci, mode, cn).as_bytes());
+        let want = &p[..*released];
+        let whole = *released == p.len();
+        let attempt = || -> Result<(), String> {
+            let mut seen: Vec<(&str, bool, Vec<u8>)> = vec![];
+            for sink in ["-o fresh", "-o holding a longer file", "stdout pipe", "stdout redirected to a file"] {
+                let sc = Scratch::new();
+                sc.write("kr.txt", kr.as_bytes());
+                sc.write("in.ktl", input);
+                let mut a: Vec<&str> = if *mode == "key" { vec!["decrypt", "in.ktl", "-t", "bob", "-k", "kr.txt", "--env-pass"] } else { vec!["password", "decrypt", "in.ktl", "--env-pass"] };
+                if sink.starts_with("-o") {
+                    a.extend_from_slice(&["-o", "out.bin"]);
+                }
+                if sink == "-o holding a longer file" {
+                    sc.write("out.bin", &vec![b'L'; 300_000]);
+                }
+                let mut cmd = Cmd::new(&a).env("KESTREL_PASSWORD", if *mode == "key" { "bobpw" } else { "pw" });
+                if sink == "stdout redirected to a file" {
+                    cmd.stdout_file = Some("redirected.bin".into());
+                }
+                let o = proc::run(&cmd, &sc.0);
+                o.well_behaved().map_err(|e| format!("{}: {}", sink, e))?;
+                let got = match sink {
+                    "stdout pipe" => o.stdout.clone(),
+                    "stdout redirected to a file" => sc.read("redirected.bin").unwrap_or_default(),
+                    _ => sc.read("out.bin").unwrap_or_default(),
+                };
+                seen.push((sink, o.ok(), got));
+            }
+            for (sink, ok, got) in &seen {
+                if *ok != whole || got[..] != want[..] {
+                    return Err(format!("sink '{}': exit status {} with {} bytes, expected {} with exactly {} bytes ({}){}", sink, if *ok { 0 } else { 1 }, got.len(), if whole { "0" } else { "1" }, want.len(), if whole { "the plaintext" } else { "the authenticated prefix" }, if got.len() > want.len() && got.starts_with(want) { " -- the expected bytes are followed by others" } else { "" }));
+                }
+            }
+            Ok(())
+        };
+        if attempt().is_err() {
+            if let Err(e) = attempt() {
+                rep.violation("C10/cli-same-result", json!({"kind":"cli-same","chunking":chunkings[*ci].0,"mode":mode,"cut":cn}), format!("{}-mode file of {} ({}): {}", mode, chunkings[*ci].0, cn, e));
+            }
+        }
+    });
+    rep.extra("cli_same_result_inputs", json!(jobs.len()));
+}
+
 fn cli_level(rep: &Report) {
     let seed = rep.seed;
     let (alice, bob) = party_fixtures(seed);
@@ -638,6 +719,10 @@ fn cli_case(cmd: &Cmd, files: &[(String, Vec<u8>)]) -> Result<(), String> {
 pub fn replay(rep: &Report, case: &Value) {
     if case["kind"] == "bounded-sink" {
         bounded_sink_cases(rep, "C10");
+        return;
+    }
+    if case["kind"] == "cli-same" {
+        cli_same_result(rep);
         return;
     }
     if case["kind"] == "cli" {
